@@ -254,10 +254,142 @@ func judgeRoundTrip(c *cryptgen.Case, b *cryptgen.Built, out []byte) *harness.Fa
 	return nil
 }
 
-func checkRoundTrip(c cryptgen.Case) *harness.Fail {
+// rtCase is a clear input plus the way init and media are handed to the library / the tools:
+//
+//	""          one file (init + segments) encrypted and decrypted as a whole
+//	"splitdec"  encrypted as a whole; the encrypted init and the encrypted media are then decoded SEPARATELY
+//	            (the senc boxes are parsed without a moov in sight) and decrypted with the init given aside
+//	            (mp4ff-decrypt -init)
+//	"splitenc"  the init alone is protected first; the media alone is encrypted with the protection data
+//	            extracted from the encrypted init (mp4ff-encrypt -init), then decrypted as in "splitdec"
+type rtCase struct {
+	cryptgen.Case
+	Mode string `json:"mode,omitempty"`
+}
+
+// splitInit returns the length of the init part (everything in front of the first styp/sidx/emsg/prft/moof).
+func splitInit(file []byte) int {
+	tree, _ := boxwalk.WalkAll(file)
+	for _, b := range tree {
+		switch b.Type {
+		case "styp", "sidx", "emsg", "prft", "moof":
+			return b.Start
+		}
+	}
+	return len(file)
+}
+
+// encryptSplitLikeCLI: mp4ff-encrypt on the init alone, then mp4ff-encrypt -init <encrypted init> on the media alone.
+func encryptSplitLikeCLI(clearInit, clearMedia []byte, c *cryptgen.Case) ([]byte, []byte, *harness.Fail) {
+	encInit, f := encryptLikeCLI(clearInit, c)
+	if f != nil {
+		return nil, nil, f
+	}
+	initFile, err := mp4.DecodeFile(bytes.NewReader(encInit))
+	if err != nil || initFile.Init == nil {
+		return nil, nil, harness.Failf("C06|DecodeFile(encrypted init)|error", "%v", err)
+	}
+	inFile, err := mp4.DecodeFile(bytes.NewReader(clearMedia))
+	if err != nil {
+		return nil, nil, harness.Failf("C06|DecodeFile(clear media alone)|error", "%v", err)
+	}
+	ipd, err := mp4.ExtractInitProtectData(initFile.Init)
+	if err != nil {
+		return nil, nil, harness.Failf("C06|ExtractInitProtectData|error", "%v", err)
+	}
+	for _, s := range inFile.Segments {
+		for _, fr := range s.Fragments {
+			if err := mp4.EncryptFragment(fr, c.Key, c.IV, ipd); err != nil {
+				return nil, nil, harness.Failf("C06|EncryptFragment(media alone)|error on valid input", "%v", err)
+			}
+		}
+	}
+	var out bytes.Buffer
+	if err := inFile.Encode(&out); err != nil {
+		return nil, nil, harness.Failf("C06|File.Encode(encrypted media alone)|error", "%v", err)
+	}
+	return encInit, out.Bytes(), nil
+}
+
+// decryptSplitLikeCLI: mp4ff-decrypt -init <encrypted init> on the encrypted media alone. Returns the media only.
+func decryptSplitLikeCLI(encInit, encMedia []byte, key []byte) ([]byte, *harness.Fail) {
+	inMp4, err := mp4.DecodeFile(bytes.NewReader(encMedia))
+	if err != nil {
+		return nil, harness.Failf("C06|DecodeFile(encrypted media alone)|error", "%v", err)
+	}
+	if !inMp4.IsFragmented() || inMp4.Init != nil {
+		return nil, harness.Failf("C06|DecodeFile(encrypted media alone)|not recognised as media without init", "")
+	}
+	iSeg, err := mp4.DecodeFile(bytes.NewReader(encInit))
+	if err != nil || iSeg.Init == nil {
+		return nil, harness.Failf("C06|DecodeFile(encrypted init)|error", "%v", err)
+	}
+	di, err := mp4.DecryptInit(iSeg.Init)
+	if err != nil {
+		return nil, harness.Failf("C06|DecryptInit|error", "%v", err)
+	}
+	var out bytes.Buffer
+	for _, seg := range inMp4.Segments {
+		if err := mp4.DecryptSegment(seg, di, key); err != nil {
+			return nil, harness.Failf("C06|DecryptSegment(media alone)|error", "%v", err)
+		}
+		if err := seg.Encode(&out); err != nil {
+			return nil, harness.Failf("C06|MediaSegment.Encode(decrypted)|error", "%v", err)
+		}
+	}
+	return out.Bytes(), nil
+}
+
+// decryptInitAlone: mp4ff-decrypt cannot write an init given aside; the library calls are DecryptInit + Encode.
+func decryptInitAlone(encInit []byte) ([]byte, *harness.Fail) {
+	iSeg, err := mp4.DecodeFile(bytes.NewReader(encInit))
+	if err != nil || iSeg.Init == nil {
+		return nil, harness.Failf("C06|DecodeFile(encrypted init)|error", "%v", err)
+	}
+	if _, err := mp4.DecryptInit(iSeg.Init); err != nil {
+		return nil, harness.Failf("C06|DecryptInit|error", "%v", err)
+	}
+	var out bytes.Buffer
+	if err := iSeg.Init.Encode(&out); err != nil {
+		return nil, harness.Failf("C06|Init.Encode(decrypted)|error", "%v", err)
+	}
+	return out.Bytes(), nil
+}
+
+func checkRoundTrip(rc rtCase) *harness.Fail {
+	c := rc.Case
 	b, err := c.Build()
 	if err != nil {
 		return harness.Failf("harness|cryptgen.Build", "%v", err)
+	}
+	if rc.Mode == "splitdec" || rc.Mode == "splitenc" {
+		n := splitInit(b.File)
+		var encInit, encMedia []byte
+		if rc.Mode == "splitenc" {
+			var f *harness.Fail
+			if encInit, encMedia, f = encryptSplitLikeCLI(b.File[:n], b.File[n:], &c); f != nil {
+				return f
+			}
+		} else {
+			enc, f := encryptLikeCLI(b.File, &c)
+			if f != nil {
+				return f
+			}
+			k := splitInit(enc)
+			encInit, encMedia = enc[:k], enc[k:]
+		}
+		if _, err := fragbuild.Read(append(append([]byte{}, encInit...), encMedia...)); err != nil {
+			return harness.Failf("C06|encrypted intermediate|data offsets do not resolve to the sample data", "%v", err)
+		}
+		outMedia, f := decryptSplitLikeCLI(encInit, encMedia, c.Key)
+		if f != nil {
+			return f
+		}
+		outInit, f := decryptInitAlone(encInit)
+		if f != nil {
+			return f
+		}
+		return judgeRoundTrip(&c, b, append(outInit, outMedia...))
 	}
 	enc, f := encryptLikeCLI(b.File, &c)
 	if f != nil {
@@ -277,10 +409,15 @@ func checkRoundTrip(c cryptgen.Case) *harness.Fail {
 
 func TestRoundTrip(t *testing.T) {
 	harness.RunRapid(t, "roundtrip", func(rt *rapid.T) {
-		c := cryptgen.Gen(rt, cryptgen.GenOpt{Avoid: avoidKnown})
+		c := rtCase{Case: cryptgen.Gen(rt, cryptgen.GenOpt{Avoid: avoidKnown})}
+		c.Mode = rapid.SampledFrom([]string{"", "", "splitdec", "splitenc"}).Draw(rt, "mode")
 		raw, _ := json.Marshal(c)
-		harness.Rec.Case(cryptgen.ExpectProtected(&c), raw, cryptgen.Classes(&c)...)
-		if harness.Rec.WantSample() && len(raw) < 6000 && cryptgen.ExpectProtected(&c) {
+		mode := c.Mode
+		if mode == "" {
+			mode = "whole"
+		}
+		harness.Rec.Case(cryptgen.ExpectProtected(&c.Case), raw, append(cryptgen.Classes(&c.Case), "mode-"+mode)...)
+		if harness.Rec.WantSample() && len(raw) < 6000 && cryptgen.ExpectProtected(&c.Case) {
 			harness.Rec.Sample(map[string]interface{}{"kind": "cryptrt", "case": c})
 		}
 		f := harness.Guarded(func() *harness.Fail { return checkRoundTrip(c) })
